@@ -157,13 +157,13 @@ def label(step):
     return "%s|s=%s|%s" % (step["main"], v.get("s", "?"), pipe_probe.h(json.dumps(v, sort_keys=True), 6))
 
 
-def schedule_job(idx, sched, paths):
+def schedule_job(idx, sched, paths, hashseed):
     steps = []
     for k, st in enumerate(sched["steps"]):
         key = "ip:" + label(st) + ("|front" if st["mode"] == "front" else "")
         steps.append({"p": st["p"], "fresh": st["fresh"],
                       "job": {"main": st["main"] + ".emb", "dirs": [paths[d] for d in st["dirs"]], "mode": st["mode"],
-                              "key": key, "tid": "sched%d.%d:%s<%s>%s" % (idx, k, st["main"], "+".join(st["dirs"]), st["mode"])}})
+                              "key": key, "tid": "sched%d.%d:%s<%s>%s@hashseed=%s" % (idx, k, st["main"], "+".join(st["dirs"]), st["mode"], hashseed)}})
     return {"op": "sched", "tid": "sched%d" % idx, "steps": steps}
 
 
@@ -283,12 +283,13 @@ def run(chk, only=None):
                 scheds += pipe_tlc.run_gen(chk, sc, choice_set="gen", max_compiles=g["compiles"], procs=g["procs"],
                                            seeds=("0",), part="schedule-generator", constraints=g.get("constraints", ()))
             chk.extra["schedules_generated"] = len(scheds)
-            jobs = [schedule_job(i, s, paths) for i, s in enumerate(scheds)]
+            jobs = [schedule_job(i, s, paths, "0") for i, s in enumerate(scheds)]
+            jobs1 = [schedule_job(i, s, paths, "1") for i, s in enumerate(scheds)]
             for s in scheds[:2]:
                 chk.sample([{k: st[k] for k in ("p", "main", "dirs", "mode", "fresh", "ids", "kind")} for st in s["steps"]])
             nw = max(2, pipe_tlc.max_par(min(cfg["workers"], max(2, NCPU - 4))))
             n1 = nw - nw // 3
-            second = jobs if cfg["second_seed_fraction"] >= 1 else jobs[::2]
+            second = jobs1 if cfg["second_seed_fraction"] >= 1 else jobs1[::2]
             p0 = pipe_worker.Pool(sc.sub("seed0"), n1, job_timeout=300, hashseed="0", pristine=True, name="s0w")
             p1 = pipe_worker.Pool(sc.sub("seed1"), max(1, nw - n1), job_timeout=300, hashseed="1", pristine=True, name="s1w")
             t0 = threading.Thread(target=lambda: p0.run([dict(j) for j in jobs]))
